@@ -270,16 +270,7 @@ def _r2(ck: Checker, prog: Program):
     else:
         ck.violation("C08.R2", fq, "values per outcome", "absent peaks are not recorded as NaN with both masks False, or found peaks not as (f_peak, a_peak) with both masks True: "
                      + "; ".join(problems[:3]), loc=m.loc(lp))
-    # HvsrCurve: single curve
-    m = prog.cls("HvsrCurve").methods["update_peaks_bounded"]
-    st = [s for s in m.node.body if isinstance(s, ast.Assign) and unparse(s.targets[0]) == "(self.peak_frequency, self.peak_amplitude)"]
-    nan = [s for s in m.node.body if isinstance(s, ast.If) and unparse(s.test) == "frq is None"]
-    c = calls_in(m.node, "_find_peak_bounded")
-    okc = len(c) == 1 and [unparse(a) for a in c[0].args[:2]] == ["self.frequency", "self.amplitude"]
-    if st and unparse(st[0].value) == "(frq, amp)" and nan and okc:
-        ck.ok("C08.R2", m.qualname, "peak_frequency, peak_amplitude = found pair or NaN")
-    else:
-        ck.violation("C08.R2", m.qualname, "single-curve peak", "HvsrCurve does not store the found pair (NaN when absent)", loc=m.loc())
+    _update_tables(ck, prog)
     # the curve a cached peak describes cannot be changed from outside: constructors keep private copies
     from .common import engine, reachable_nonlocal
     eng = engine(prog)
@@ -299,39 +290,126 @@ def _r2(ck: Checker, prog: Program):
                              f"(the reported peak would no longer be a maximum of the curve)", loc=init.loc())
 
 
-def _r3(ck: Checker, prog: Program):
+def _static_hook(prog, mod):
+    """Calls of HvsrCurve's static peak helpers, whatever the receiver (self / cls / HvsrCurve): Function(name)(args in parameter order)."""
+    hc = prog.cls("HvsrCurve")
+    base = pkg_call_hook(prog, mod)
+
+    def hook(call, T):
+        if isinstance(call.func, ast.Attribute) and isinstance(call.func.value, ast.Name) and call.func.value.id in ("self", "cls", "HvsrCurve"):
+            m = hc.find_method(call.func.attr)
+            if m is not None and m.kind == "staticmethod":
+                b = bind_call(call, m.params)
+                d = m.defaults()
+                return sp.Function(m.name)(*[T.tr(b[p]) if p in b else sp.Function("default")(T.tr(d[p])) if p in d else sp.Symbol("<missing>") for p in m.params])
+        return base(call, T)
+    return hook
+
+
+def _update_tables(ck: Checker, prog: Program):
+    """update_peaks_bounded of HvsrCurve / HvsrTraditional as decision tables: when the work is skipped, what is remembered,
+    and (single curve) what is recorded as the peak."""
+    from ..pathtable import PathTable, literals, same_rel, flatten_cases
+    R = lambda n: sp.Symbol(n, real=True)   # noqa: E731
+    gi, NONE = sp.Function("getitem"), sp.Symbol("None")
+    SR, KW, SSR, SKW = R("search_range_in_hz"), R("find_peaks_kwargs"), R("self._search_range_in_hz"), R("self._find_peaks_kwargs")
+    same = [sp.Eq(SR, SSR, evaluate=False), sp.Eq(KW, SKW, evaluate=False)]
+    kw_none = sp.Eq(KW, NONE, evaluate=False)
+    F = sp.Function
     for cname in ("HvsrCurve", "HvsrTraditional"):
         m = prog.cls(cname).methods["update_peaks_bounded"]
         fq = m.qualname
-        first = m.node.body[0] if not isinstance(m.node.body[0], ast.Expr) else m.node.body[1]
-        good = isinstance(first, ast.If) and any(isinstance(b, ast.Return) for b in first.body)
-        if good:
-            T = Translator()
-            t = T.tr(first.test)
-            want = sp.And(sp.Eq(T.sym("search_range_in_hz"), T.sym("self._search_range_in_hz"), evaluate=False),
-                          sp.Eq(T.sym("find_peaks_kwargs"), T.sym("self._find_peaks_kwargs"), evaluate=False))
-            good = isinstance(t, sp.And) and {str(a) for a in t.args} == {str(a) for a in want.args}
-        if good:
-            ck.ok("C08.R3", fq, norm_key(first), detail="early return only when both arguments equal the stored ones")
+        leaves = PathTable(prog, m.module, call_hook=_static_hook(prog, m.module), unroll=True).leaves(m.node.body)
+        state = ("self._search_range_in_hz", "self._find_peaks_kwargs")
+        skipping, working = [], []
+        for l in leaves:
+            if l.exit == "raise":
+                continue
+            st = {e[1] for e in l.events if e[0] == "store"}
+            (working if st & set(state) else skipping).append(l)
+        if not working:
+            raise AnalysisError(f"{fq}: no path stores the range")
+        bad = []
+        for l in skipping:
+            lits = literals(l)
+            miss = [w for w in same if not any(same_rel(x, w) for x in lits)]
+            if miss or any(e[0] == "store" for e in l.events):
+                bad.append((l, miss))
+        if not bad:
+            ck.ok("C08.R3", fq, "cache test", detail=f"the work is skipped only when both arguments equal the stored ones ({len(skipping)} skipping path(s))")
         else:
-            ck.violation("C08.R3", fq, "cache test", "the early return does not compare both the range and the find_peaks arguments with the stored values",
-                         loc=m.loc(first))
-        stores = {}
-        for st in ast.walk(m.node):
-            if isinstance(st, ast.Assign) and unparse(st.targets[0]) in ("self._search_range_in_hz", "self._find_peaks_kwargs"):
-                stores.setdefault(unparse(st.targets[0]), []).append(unparse(st.value))
-        ok_r = stores.get("self._search_range_in_hz") == ["tuple(search_range_in_hz)"]
-        fk = stores.get("self._find_peaks_kwargs", [])
-        ok_k = fk in (["{} if find_peaks_kwargs is None else dict(find_peaks_kwargs)"], ["{}", "dict(find_peaks_kwargs)"])
-        if ok_r and ok_k:
+            l, miss = bad[0]
+            ck.violation("C08.R3", fq, "cache test", f"the early return does not compare both the range and the find_peaks arguments with the stored values "
+                         f"(a path skips the update under {l.cond() or 'no condition'}; not tested: {miss})", loc=m.loc())
+        problems = []
+        for l in working:
+            last = {}
+            for e in l.events:
+                if e[0] == "store":
+                    last[e[1]] = e[2]
+            v = last.get(state[0])
+            if v not in (SR, F("tuple")(SR), sp.Tuple(gi(SR, sp.Integer(0)), gi(SR, sp.Integer(1)))):
+                problems.append(f"{state[0]} <- {v}")
+            v = last.get(state[1])
+            if v is None:
+                problems.append(f"{state[1]} is not stored")
+                continue
+            for lits, val in flatten_cases(literals(l), v):
+                none = True if any(same_rel(x, kw_none) for x in lits) else False if any(same_rel(x, sp.Ne(KW, NONE, evaluate=False)) for x in lits) else None
+                if none is None:
+                    raise AnalysisError(f"{fq}: `{state[1]} <- {val}` is stored without deciding whether the argument is None")
+                ok = val == F("dict")() if none else val in (F("dict")(KW), F("copy")(KW), F("deepcopy")(KW))
+                if not ok:
+                    problems.append(f"{state[1]} <- {val} when the argument is {'None' if none else 'given'}")
+        if not problems:
             ck.ok("C08.R3", fq, "stored range/kwargs = the arguments")
         else:
-            ck.violation("C08.R3", fq, "stored range", f"stored values are {stores}; expected the arguments themselves", loc=m.loc())
+            ck.violation("C08.R3", fq, "stored range", f"stored values are not the arguments themselves: {'; '.join(sorted(set(problems))[:3])}", loc=m.loc())
         rd = reaching(m)
         for p in ("search_range_in_hz", "find_peaks_kwargs"):
             uses = [x for x in own_nodes(m.node) if isinstance(x, ast.Name) and x.id == p and isinstance(x.ctx, ast.Load)]
             if any(not rd.only_param(p, u) for u in uses):
                 ck.violation("C08.R3", fq, f"{p} rebound", f"`{p}` is rebound before use", loc=m.loc())
+        if cname != "HvsrCurve":
+            continue
+        # single curve: what is recorded as the peak
+        problems, seen = [], set()
+        for l in working:
+            last = {}
+            for e in l.events:
+                if e[0] == "store":
+                    last[e[1]] = e[2]
+            pf, pa = last.get("self.peak_frequency"), last.get("self.peak_amplitude")
+            if pf is None or pa is None:
+                problems.append("a path that updates the range does not record a peak")
+                continue
+            calls = [a for a in sp.preorder_traversal(sp.Tuple(pf, pa, *literals(l))) if getattr(getattr(a, "func", None), "__name__", "") == "_find_peak_bounded"]
+            if not calls:
+                problems.append(f"the recorded peak ({pf}, {pa}) does not come from the bounded search")
+                continue
+            call = calls[0]
+            if not (len(call.args) == 4 and call.args[0] == R("self.frequency") and call.args[1] == R("self.amplitude") and call.args[2] in (SR, SSR, F("tuple")(SR)) and call.args[3] in (KW, SKW)):
+                problems.append(f"the search is {call}")
+            absent = sp.Eq(gi(call, sp.Integer(0)), NONE, evaluate=False)
+            for lits, val in flatten_cases(literals(l), sp.Tuple(pf, pa) if not (isinstance(pf, sp.Piecewise) or isinstance(pa, sp.Piecewise)) else pf):
+                c = True if any(same_rel(x, absent) for x in lits) else False if any(same_rel(x, sp.Ne(absent.lhs, NONE, evaluate=False)) for x in lits) else None
+                if c is None:
+                    problems.append(f"a path ({l.cond()}) does not distinguish a found peak from an absent one")
+                    continue
+                seen.add(c)
+                if isinstance(val, sp.Tuple):
+                    want = (sp.nan, sp.nan) if c else (gi(call, sp.Integer(0)), gi(call, sp.Integer(1)))
+                    if tuple(val) != want and not (c and all(x is sp.nan for x in val)):
+                        problems.append(f"{'absent' if c else 'found'} peak recorded as {tuple(val)}")
+                else:
+                    raise AnalysisError(f"{fq}: recorded peak {val} not understood")
+        if not problems and seen == {True, False}:
+            ck.ok("C08.R2", fq, "peak_frequency, peak_amplitude = found pair or NaN")
+        else:
+            ck.violation("C08.R2", fq, "single-curve peak", "HvsrCurve does not store the found pair (NaN when absent): " + "; ".join(problems[:3]), loc=m.loc())
+
+
+def _r3(ck: Checker, prog: Program):
     # mean-curve peaks use the stored range
     spec = {
         "HvsrTraditional": "HvsrCurve._find_peak_bounded(self.frequency, self.mean_curve(distribution), search_range_in_hz=self._search_range_in_hz, find_peaks_kwargs=self._find_peaks_kwargs)",
